@@ -276,6 +276,18 @@ func c15Corpus(thorough bool) []c15Case {
 		}
 		add("FeeQuotes", &client.FeeQuotes{FeeQuotes: fq})
 	}
+	// a coinbase transaction (input index 0xffffffff, zero hash) with its placeholder spent output, confirmed
+	{
+		cb := wire.NewMsgTx(1)
+		cbop := wire.OutPoint{Index: wire.MaxPrevOutIndex}
+		cb.AddTxIn(wire.NewTxIn(&cbop, []byte{3, 1, 2, 3}))
+		cb.AddTxOut(wire.NewTxOut(5000000000, bytes.Repeat([]byte{0x51}, 25)))
+		mp := &client.MerkleProof{Index: 0, Path: []bitcoin.Hash32{c15Hash(7)}, BlockHeader: c15Header(6), DuplicatedIndexes: []uint64{}}
+		add("Tx", &client.Tx{ID: 9, Tx: cb, Outputs: []*wire.TxOut{wire.NewTxOut(0, nil)}, State: client.TxState{Safe: true, MerkleProof: mp}})
+		add("Tx", &client.Tx{ID: 10, Tx: cb, Outputs: []*wire.TxOut{wire.NewTxOut(0, nil)}, State: client.TxState{UnconfirmedDepth: 1}})
+		add("BaseTx", &client.BaseTx{Tx: cb})
+		add("SendTx", &client.SendTx{Tx: cb, Indexes: []uint32{0}})
+	}
 	// text that is not one byte per character
 	for _, msg := range []string{"é", "naïve – “quoted”", "日本語のエラー", "emoji 😀 ok", strings.Repeat("ü", 0xfd), strings.Repeat("語", 300)} {
 		add("Reject", &client.Reject{MessageType: client.MessageTypeSendTx, Hash: &h1, Code: 3, Message: msg})
